@@ -164,6 +164,12 @@ Section ConcReclaim.
     - rewrite IH. split; [intros H [->|H2]; [rewrite pos_eqb_refl in E; discriminate|auto]|intros H H2; apply H; right; exact H2].
   Qed.
 
+  Lemma slot_lookup_none_keys_contra sl p e : slot_lookup sl p = Some e -> In p (map fst sl).
+  Proof.
+    intros L. destruct (in_dec (list_eq_dec Nat.eq_dec) p (map fst sl)) as [H|H]; [exact H|].
+    apply slot_lookup_none_keys in H. congruence.
+  Qed.
+
   Lemma slot_remove_absent sl x : slot_lookup sl x = None -> slot_remove sl x = sl.
   Proof.
     induction sl as [|[q e] r IH]; cbn [slot_lookup slot_remove]; [reflexivity|].
